@@ -1540,8 +1540,15 @@ class Interp:
                 z.add_le(c, hi, -1 if op == 'Gt' else 0)
             return z.sat
         if a[0] == 'slen' and b[0] == 'slen':
+            if z.entails_eq(a[1], b[1]) and z.entails_eq(a[2], b[2]):
+                # the length of the very same range on both sides
+                if op in ('Ne', 'Lt', 'Gt'):
+                    z.sat = False
+                return z.sat
             if z.entails_eq(a[1], 0) and z.entails_eq(b[1], 0):
                 return self.assume_cond(st, (op, a[2], b[2]), True)
+            if z.entails_eq(a[1], b[1]):
+                return self.assume_cond(st, (op, a[2], b[2]), True)     # same start: compare the ends
         return z.sat
 
     def decide(self, st, cond):
